@@ -528,6 +528,7 @@ void
         new_len = *prev_len;
     } else {
 	new_len = alpha * *prev_len;
+	if ( new_len <= *prev_len ) new_len = *prev_len + 1; /* always grow */
     }
     
     if ( type == LSUB || type == USUB ) lword = sizeof(int_t);
@@ -544,6 +545,7 @@ void
 		    if ( ++tries > 10 ) return (NULL);
 		    alpha = Reduce(alpha);
 		    new_len = alpha * *prev_len;
+		    if ( new_len <= *prev_len ) return (NULL); /* cannot grow */
 		    new_mem = (void *) SUPERLU_MALLOC((size_t)new_len * lword);
 		}
 	    }
@@ -586,6 +588,7 @@ void
 		    if ( ++tries > 10 ) return (NULL);
 		    alpha = Reduce(alpha);
 		    new_len = alpha * *prev_len;
+		    if ( new_len <= *prev_len ) return (NULL); /* cannot grow */
 		    extra = (new_len - *prev_len) * lword;	    
 		}
 	    }
